@@ -5,6 +5,6 @@ CONSTANTS
   Env = {}
   SweepFirst = 4
   MaxFields = 48
-  TruncEveryMax = 3000
+  TruncEveryMax = 1500
   RepeatMaxBytes = 3000000
 INVARIANTS StepsAgree IdentWellFormed PlanWellFormed Emit
